@@ -157,6 +157,7 @@ func (ex *Exec) structComps(si *structInfo, out modSet) {
 }
 
 var modMemo = map[*ssa.Function]modSet{}
+var modMemoNF = map[*ssa.Function]modSet{}
 var modBusy = map[*ssa.Function]bool{}
 
 func (ex *Exec) modOfFunc(fn *ssa.Function) modSet {
@@ -187,18 +188,63 @@ func (ex *Exec) modOfFunc(fn *ssa.Function) modSet {
 		modMemo[fn] = out
 		return out
 	}
-	ex.modOfBlocks(fn.Blocks, out)
+	nf := modSet{}
+	ex.modOfBlocksF(fn.Blocks, out, nf)
 	modMemo[fn] = out
+	modMemoNF[fn] = nf
 	return out
 }
 
+// isAllocInBlocks: the value is an Alloc instruction located in one of the given blocks.
+func isAllocIn(v ssa.Value, in map[*ssa.BasicBlock]bool) bool {
+	a, ok := v.(*ssa.Alloc)
+	return ok && in[a.Block()]
+}
+
 func (ex *Exec) modOfBlocks(blocks []*ssa.BasicBlock, out modSet) {
+	ex.modOfBlocksF(blocks, out, nil)
+}
+
+// modOfBlocksF additionally records in notFresh every component that may be written at a
+// location that was not allocated inside these blocks.
+func (ex *Exec) modOfBlocksF(blocks []*ssa.BasicBlock, out modSet, notFresh modSet) {
 	V := ex.V
+	inSet := map[*ssa.BasicBlock]bool{}
+	for _, b := range blocks {
+		inSet[b] = true
+	}
+	snapshot := func() modSet {
+		m := modSet{}
+		for c := range out {
+			m[c] = true
+		}
+		return m
+	}
 	for _, b := range blocks {
 		for _, in := range b.Instrs {
 			switch x := in.(type) {
 			case *ssa.Store:
-				ex.storeComps(x.Addr, out)
+				fresh := false
+				if fa, ok := x.Addr.(*ssa.FieldAddr); ok && isAllocIn(fa.X, inSet) {
+					fresh = true
+				}
+				if isAllocIn(x.Addr, inSet) {
+					fresh = true
+				}
+				if fresh {
+					ex.storeComps(x.Addr, out)
+				} else {
+					before := snapshot()
+					tmp := modSet{}
+					ex.storeComps(x.Addr, tmp)
+					for c := range tmp {
+						out[c] = true
+						if notFresh != nil {
+							notFresh[c] = true
+						}
+					}
+					_ = before
+				}
 			case *ssa.Alloc:
 				ex.storeComps(x, out)
 			case *ssa.MakeSlice:
@@ -217,8 +263,42 @@ func (ex *Exec) modOfBlocks(blocks []*ssa.BasicBlock, out modSet) {
 				ex.noteComp(vc, vs)
 				out[hc] = true
 				out[vc] = true
+				if notFresh != nil {
+					notFresh[hc] = true
+					notFresh[vc] = true
+				}
 			case *ssa.Call:
-				ex.modOfCall(&x.Call, out)
+				tmp := modSet{}
+				ex.modOfCall(&x.Call, tmp)
+				var calleeNF modSet
+				if callee, ok := x.Call.Value.(*ssa.Function); ok && !x.Call.IsInvoke() {
+					if nf, ok := modMemoNF[callee]; ok {
+						calleeNF = nf // inlined callee: writes into its own allocations stay fresh
+					}
+				}
+				for c := range tmp {
+					out[c] = true
+					if notFresh != nil && (calleeNF == nil || calleeNF[c]) {
+						notFresh[c] = true
+					}
+				}
+			case *ssa.Range:
+				if mt, ok := x.X.Type().Underlying().(*types.Map); ok {
+					comp, cs := V.rangeComp(mt)
+					ex.noteComp(comp, cs)
+					out[comp] = true
+				}
+			case *ssa.Next:
+				if rg, ok := x.Iter.(*ssa.Range); ok {
+					if mt, ok := rg.X.Type().Underlying().(*types.Map); ok {
+						comp, cs := V.rangeComp(mt)
+						ex.noteComp(comp, cs)
+						out[comp] = true
+						if notFresh != nil {
+							notFresh[comp] = true
+						}
+					}
+				}
 			case *ssa.Defer, *ssa.Go:
 				out["*"] = true
 			}
@@ -345,11 +425,12 @@ func (ex *Exec) enterLoop(fr *Frame, li *loopInfo, ins []edgeIn) (*State, *Term)
 	}
 	// modification set of the loop body
 	ms := modSet{}
+	notFresh := modSet{}
 	var blocks []*ssa.BasicBlock
 	for bb := range li.body {
 		blocks = append(blocks, bb)
 	}
-	ex.modOfBlocks(blocks, ms)
+	ex.modOfBlocksF(blocks, ms, notFresh)
 	if fr.top && ex.con != nil {
 		for _, m := range ex.con.LoopMods[li.ordinal] {
 			for _, c := range ex.compsOfSpec(m, nil) {
@@ -371,6 +452,17 @@ func (ex *Exec) enterLoop(fr *Frame, li *loopInfo, ins []edgeIn) (*State, *Term)
 	ex.assume(Implies(entryReach, Ge(na, entrySt.alloc)))
 	hst.alloc = na
 	ex.havoc(hst, comps, tag)
+	// components the loop writes only inside objects it allocates itself: everything that existed at
+	// loop entry is unchanged (sound by induction over the iterations, no user invariant needed)
+	for _, c := range comps {
+		if notFresh[c] || strings.HasPrefix(c, "G:") {
+			continue
+		}
+		before := ex.heapGet(entrySt, c, ex.allComps[c])
+		after := hst.heap[c]
+		q := Const("lf?"+c, SInt)
+		ex.assume(Implies(entryReach, Forall([]*Term{q}, Implies(And(Le(IntLit(0), q), Lt(q, entrySt.alloc)), Eq(Select(after, q), Select(before, q))))))
+	}
 	hover := map[string]*CVal{}
 	for _, phi := range phis {
 		if _, isTuple := phi.Type().(*types.Tuple); isTuple {
